@@ -13,6 +13,7 @@ def errStr : Err → String
   | .sharedGrowth => "skip-shared-growth"
   | .cyclic => "cyclic"
   | .nopath => "nopath"
+  | .srcMoved => "skip-source-moved"
   | .badarg => "badarg"
   | .uaf => "UB:use-after-free"
   | .oob => "UB:out-of-range"
@@ -85,6 +86,8 @@ def parseLit (ts : List String) : Option Lit :=
   | ["i", n] => n.toInt?.map Lit.int
   | ["u", n] => n.toNat?.map Lit.uns
   | ["l", n] => n.toInt?.map Lit.long
+  | ["L", n] => n.toInt?.map Lit.nlong
+  | ["UL", n] => n.toNat?.map Lit.nulong
   | ["d", m, e] => (parseDy m e).map Lit.dbl
   | ["f", m, e] => (parseDy m e).map Lit.flt
   | ["b", x] => some (Lit.bool (x == "1"))
